@@ -127,6 +127,27 @@ CHECKS = {
         "exhaustively, up to 1e5 points recorded."),
   technique="TLC enumeration of inputs + post-condition check on real code + TLC trace validation",
  ),
+ "C04": dict(
+  level="model_checking",
+  design_ref="DESIGN.md section 5, C04",
+  text=("HierarchySpec keeps, per level, the range predicate and the manual "
+        "exclusions in root ids and defines every child's events as the "
+        "parent's selection (TLC checks ChildIsFilteredParent and that "
+        "manual exclusions change only by explicit edits). All "
+        "(edit; rejuvenate)* histories up to the depth bound over 2 (3) "
+        "nested children of a 5-event HDF5 root are executed on real "
+        "RTDC_Hierarchy objects; after every refresh the decoded root ids "
+        "of every level, every feature (scalar, image, mask, contour, trace, "
+        "ancillary time, temporary) against the root restricted to those "
+        "ids, the visible manual exclusions and the youngest selection are "
+        "compared. Free interleavings from TLC's simulator over 3 children "
+        "are executed, recorded and validated by TLC (HierarchyTrace)."),
+  note=("refreshes only through youngest.rejuvenate(); range filters are "
+        "intervals of a monotone feature; quick: L=2, 3 edit/refresh pairs "
+        "+ 600 simulated schedules of depth 12; thorough: L<=3, 4 pairs, "
+        "dict root for a seventh of the histories, 15000 schedules."),
+  technique="TLC model checking + spec-history replay + TLC trace validation",
+ ),
 }
 
 NOT_YET = "check not built yet (work in progress; see DESIGN.md section 5)"
